@@ -1,16 +1,25 @@
 // C12 ser: photon::rpc serialization. Bounded-exhaustive enumeration, two parts.
 //  (A) round trip: message -> SerializerIOV -> flat bytes -> every fragmentation into 1..3 exact-size heap blocks
-//      -> DeserializerIOV -> field-wise comparison with the sender's message.
-//  (B) hostile input: every truncation (tail and head), every length/offset/pointer field of the image overwritten
-//      with boundary values, every byte flipped (checked messages), 8-byte words overwritten at every offset;
-//      each presented in 1 and 2 (thorough: some 3) piece fragmentations.
+//      -> DeserializerIOV -> field-wise comparison with the sender's message (sorted_map: against a std::string model).
+//  (B) hostile input, derived from every valid image: every tail and head truncation; every length / offset / pointer
+//      field (located by a reference parser of the valid image, incl. fields of array<Message> elements, sorted_map
+//      index slices and the bodies of map values) overwritten with boundary values; both words of a sorted_map slice
+//      overwritten together; every byte flipped (checked messages); (thorough) an 8-byte word overwritten at every
+//      offset. Each hostile image is presented in every 1- and 2-piece fragmentation (thorough: plus 3 pieces cut at
+//      payload/body boundaries for field corruptions).
 //      Oracle (property statement): deserialize() returns null, or a message whose body and every variable-length
 //      field lies inside the supplied blocks (or inside a buffer the input iovector allocated for a straddling
-//      field: iovector::do_malloc -> IOAlloc, recorded by the harness allocator); no ASan report / crash while
-//      deserializing or while reading every field; an altered CheckedMessage is rejected.
+//      field: iovector::do_malloc -> IOAlloc, recorded by the harness allocator; sorted_map entries: inside
+//      base_buffer); no ASan report / crash while deserializing or while reading every field, iterating the map and
+//      looking up present and absent keys; an altered CheckedMessage is rejected (unless the stored checksum was
+//      overwritten together with other bytes, which no checksum can exclude).
+//      To keep one defect from killing thousands of shard processes, the harness checks every pointer the library
+//      hands out (or is about to dereference in sorted_map iteration/lookup) against the supplied blocks BEFORE it is
+//      dereferenced, and contains SIGSEGV inside the library with sigsetjmp.
 // Build is -DNDEBUG like the shipped library: asserts protect nothing.
-// C12_LIVE=1 in the environment disables the harness's own pre-checks on sorted_map slices, so that a replayed
-// case really lets the library dereference them (ASan then shows the out-of-bounds read).
+// Debug aids (environment): C12_LIVE=1 disables the pre-checks on sorted_map slices, so that a replayed case lets the
+// library really dereference them (ASan then shows the out-of-bounds access); C12_GREP=substr prints index+descriptor
+// of matching cases to the shard log; C12_COUNT=file only counts cases per type; C12_FAILLOG=prefix logs failing cases.
 #include "seqx.h"
 #include <photon/rpc/serialize.h>
 #include <setjmp.h>
@@ -366,10 +375,28 @@ struct Locator {          // reference parser of a VALID image: where every leng
 };
 
 // ------------------------------------------------------------------------------------------------ sender side
+// All sender-side storage (message, field data, map values, iovec[]) comes from one arena mapped at a fixed address, so
+// that the pointer values embedded in the serialized image -- and therefore every hostile image derived from it and
+// every outcome -- are the same in every shard, every run and every replay.
+#ifndef MAP_FIXED_NOREPLACE
+#define MAP_FIXED_NOREPLACE 0x100000
+#endif
+struct Arena {
+    char* base = nullptr; size_t cap = 8u << 20, used = 0;
+    void init() {
+        if (base) return;
+        void* p = mmap((void*)0x200000000000ull, cap, PROT_READ | PROT_WRITE, MAP_PRIVATE | MAP_ANONYMOUS | MAP_FIXED_NOREPLACE, -1, 0);
+        if (p == MAP_FAILED || p != (void*)0x200000000000ull) { if (p != MAP_FAILED) munmap(p, cap); p = mmap(nullptr, cap, PROT_READ | PROT_WRITE, MAP_PRIVATE | MAP_ANONYMOUS, -1, 0); }
+        base = (char*)p;
+    }
+    void reset() { init(); memset(base, 0, used); used = 0; }
+    char* get(size_t n) { n = (n + 15) & ~(size_t)15; if (n == 0) n = 16; if (used + n > cap) { fprintf(stderr, "arena exhausted\n"); abort(); } char* p = base + used; used += n; return p; }
+};
+static Arena g_arena;
+
 struct Store {
-    std::vector<void*> blocks;
-    ~Store() { for (auto p : blocks) free(p); }
-    char* raw(size_t n) { void* p = calloc(1, n ? n : 1); blocks.push_back(p); return (char*)p; }
+    Store() { g_arena.reset(); }
+    char* raw(size_t n) { return g_arena.get(n); }       // zero-filled
     char* bytes(size_t n, int seed) {          // position- and field-dependent printable bytes
         if (n == 0) return nullptr;
         char* p = raw(n);
@@ -382,7 +409,6 @@ struct Store {
         s.assign((const void*)p, n);
     }
     std::vector<std::unique_ptr<SMapFactory>> factories;
-    std::vector<std::unique_ptr<MapVal>> vals;
 };
 
 struct Shape { std::vector<int> p; std::string desc; };
@@ -438,8 +464,7 @@ template<class T> static void set_map(T& m, Store& st, const Shape& s, MapModel&
     st.factories.emplace_back(new SMapFactory);
     auto& fac = *st.factories.back();
     for (size_t i = 0; i < ms.size(); i++) {
-        st.vals.emplace_back(new MapVal);
-        MapVal& v = *st.vals.back();
+        MapVal& v = *new (st.raw(sizeof(MapVal))) MapVal;
         v.a = 1000 + (int)i; v.c = (char)('p' + i); st.str(v.b, ms[i].blen, 40 + (int)i);
         size_t kl = strlen(ms[i].key) + 1;
         char* kp = st.raw(kl); memcpy(kp, ms[i].key, kl);
@@ -448,6 +473,10 @@ template<class T> static void set_map(T& m, Store& st, const Shape& s, MapModel&
         model.sorted.push_back({ms[i].key, v.a, std::string((char*)v.b.addr(), v.b._len), v.c});
     }
     fac.assign_to(&m.map);
+    if (m.map.index._len) {      // move index and flat buffer into the arena (deterministic addresses in the image)
+        char* ic = st.raw(m.map.index._len); memcpy(ic, m.map.index._ptr, m.map.index._len); m.map.index._ptr = ic;
+        char* bc = st.raw(m.map.base_buffer._len); memcpy(bc, m.map.base_buffer._ptr, m.map.base_buffer._len); m.map.base_buffer._ptr = bc;
+    }
     std::sort(model.sorted.begin(), model.sorted.end(), [](const MapModel::E& x, const MapModel::E& y) { return x.key < y.key; });
     if (!ms.empty()) model.probes.push_back(ms[0].key);
     model.probes.push_back("aa"); model.probes.push_back("zz");
@@ -553,10 +582,9 @@ struct TypeRun {
         h = seqx::mix(h, o.result); h = seqx::mix(h, nc); h = seqx::mix(h, std::min<size_t>(o.nalloc, 3));
         h = seqx::mix(h, body_str * 2 + pay_str); h = seqx::mix(h, o.probs.empty() ? 0 : seqx::fnv(o.probs[0].sig, strlen(o.probs[0].sig)));
         c.cls(h);
-        if (g_faillog) {     // debug aid: one line per failing case
-            const char* sg = o.result == 2 ? "crash-in-deserialize" : o.result == 3 ? "crash-reading-fields" : (kind != KIND_A && o.result != 0 && checked && altered) ? "checked-message-alteration-accepted"
-                           : (o.result && !o.body_in) ? "body-outside-input" : !o.probs.empty() ? o.probs[0].sig : nullptr;
-            if (sg) fprintf(g_faillog, "%s\t%s\n", sg, c.sh->cur);
+        if (g_faillog) {     // debug aid: one line per case with a crash or an oracle complaint about the returned message
+            const char* sg = o.result == 2 ? "crash-in-deserialize" : o.result == 3 ? "crash-reading-fields" : (o.result && !o.body_in) ? "body-outside-input" : !o.probs.empty() ? o.probs[0].sig : nullptr;
+            if (sg) fprintf(g_faillog, "%s\t%p\t%s\n", sg, o.fault, c.sh->cur);
         }
         bool forged = false;
         if (o.result == 2) { c.fail("crash-in-deserialize", "SIGSEGV/SIGBUS at address %p inside DeserializerIOV::deserialize (contained by the harness)", o.fault); return; }
@@ -701,9 +729,9 @@ struct TypeRun {
 template<class T, class Setter>
 static void explore(seqx::Ctx& c, const Tier& tier, int type_id, const char* tname, bool checked, const std::vector<Shape>& shapes, Setter set) {
     TypeRun<T> tr{c, tier, type_id, tname, checked};
-    uint64_t before = c.counter;
-    for (auto& sh : shapes) { if (c.stop && !g_count) return; tr.shape(sh, set); }
-    if (g_count && c.shard == 0) { FILE* f = fopen(g_count, "a"); if (f) { fprintf(f, "%-9s shapes=%zu cases=%llu\n", tname, shapes.size(), (unsigned long long)(c.counter - before)); fclose(f); } }
+    uint64_t before = c.counter, ih = 0;
+    for (auto& sh : shapes) { if (c.stop && !g_count) return; tr.shape(sh, set); ih = seqx::fnv(tr.img.data(), tr.img.size(), ih ^ 1469598103934665603ull); }
+    if (g_count && c.shard == 0) { FILE* f = fopen(g_count, "a"); if (f) { fprintf(f, "%-9s shapes=%zu cases=%llu images-hash=%016llx\n", tname, shapes.size(), (unsigned long long)(c.counter - before), (unsigned long long)ih); fclose(f); } }
 }
 
 static std::vector<Shape> cross(const std::vector<std::vector<int>>& dims, const std::vector<std::string>& names, const std::vector<std::vector<std::string>>& labels) {
@@ -726,7 +754,7 @@ static void seqx_enumerate(seqx::Ctx& c, bool thorough) {
     if (getenv("C12_FAILLOG") && !g_faillog) g_faillog = fopen(fmt("%s.%d", getenv("C12_FAILLOG"), c.shard).c_str(), "a");
     g_count = getenv("C12_COUNT"); if (g_count) c.stop = true;
     Tier t;
-    if (thorough) t = {{0, 1, 2, 7, 8, 9}, 3, 2, true, true, {0x01, 0x80, 0xff}, true, {0, 1, 8, 9}};
+    if (thorough) t = {{0, 1, 2, 7, 8, 9}, 3, 2, true, true, {0x01, 0x80, 0xff}, true, {0, 1, 2, 7, 8, 9}};
     else          t = {{0, 1, 8, 9}, 3, 2, false, false, {0x01, 0xff}, false, {0, 9}};
     auto& ln = t.lens; auto ll = numlabels(ln);
     auto& l2 = t.lens2; auto ll2 = numlabels(l2);
@@ -757,9 +785,11 @@ static void seqx_enumerate(seqx::Ctx& c, bool thorough) {
 }
 
 SEQX_MAIN("C12", "ser",
-          "message types Fixed/Basic/Aligned/Nested/WithMap, each as Message and CheckedMessage<>, cover fixed fields, buffer, aligned_buffer, string, array<int32>, array<Message>, fixed_buffer, "
-          "iovec_array, aligned_iovec_array, nested Message, sorted_map<string,Message>; field lengths {0,1,8,9} (thorough {0,1,2,7,8,9}), iovec shapes of <=3 pieces, maps of 0..3 entries. "
-          "(A) serialize, flatten, EVERY fragmentation into 1..3 exact-size heap blocks, deserialize, compare field-wise. (B) every tail and head truncation, every length/offset/pointer field <- "
-          "{0,1,len-1,len+1,remaining,remaining+1,2^31,2^63,2^64-1}, every byte flip of checked images, (thorough) an 8-byte word at every offset <- {0,1,2^31,2^63,2^64-1}; each in every 1- and 2-piece "
-          "fragmentation (thorough: plus 3 pieces cut at payload/body boundaries). distinct = (type, corruption kind, field class x value, relation of value to remaining bytes, null/message/crash, "
-          "#pieces, #copies the iovector made, body/payload straddles a cut, first oracle complaint)")
+          "message types Fixed/Basic/Aligned/Nested/WithMap, each as Message and as CheckedMessage<>, cover fixed fields, buffer, aligned_buffer, string, array<int32>, array<Message>, fixed_buffer, "
+          "iovec_array, aligned_iovec_array, nested Message, sorted_map<string,Message>. Shapes: Basic buf/str/arr in {0,1,8,9}^3 (thorough {0,1,2,7,8,9}^3); Aligned 2 lengths x 2 lengths x 3x3 iovec shapes "
+          "(thorough 6x4x6x6, iovec shapes of <=3 pieces incl. an empty piece); Nested 2x4x2x2 (thorough 6x7x2x4; array<Message> of 0..3 elements); WithMap 2x4x2 (thorough 6x8x4; maps of 0..3 entries, "
+          "unsorted insertion, prefix keys, empty key, default-constructed value string). (A) serialize, flatten, EVERY fragmentation into 1..3 exact-size heap blocks, deserialize, compare field-wise. "
+          "(B) from every valid image: every tail and head truncation; every length/offset field <- {0,1,len-1,len+1,remaining,remaining+1,2^31,2^63,2^64-1} (pointer fields <- {0,1,2^64-1}); sorted_map slices "
+          "<- zero/one-byte slices at the end of base_buffer; every byte flip (2 masks, thorough 3) of checked images; (thorough) an 8-byte word at every offset <- {0,1,2^31,2^63,2^64-1}; each in every 1- and 2-piece "
+          "fragmentation (flips and words: a few cuts; thorough: field corruptions also in 3 pieces cut at payload/body boundaries). distinct = (type, corruption kind, field class x value, relation of the value "
+          "to the remaining bytes, null/message/crash, #pieces, #copies the iovector made, body/payload straddles a cut, first oracle complaint, forged-checksum exemption)")
